@@ -20,15 +20,32 @@ if [ ! -x "$VERIF/bin/overlaygen" ] || [ -n "$(find "$VERIF/tools/overlaygen" -n
   (cd "$VERIF/tools" && GOTOOLCHAIN=local go build -o "$VERIF/bin/overlaygen" ./overlaygen) || { echo "HARNESS-ERROR cannot build overlaygen"; exit 2; }
 fi
 goroot=$(cd "$REPO" && go env GOROOT) || { echo "HARNESS-ERROR go env failed"; exit 2; }
-ov=$("$VERIF/bin/overlaygen" -repo "$REPO" -verif "$VERIF" -out "$run" -goroot "$goroot") || { echo "HARNESS-ERROR overlay generation failed"; exit 2; }
-if ! (cd "$REPO" && go test -c -vet=off -tags verif -overlay "$ov" -o "$run/verif.test" . ) > "$run/build.log" 2>&1; then
-  echo "HARNESS-ERROR build failed"; tail -40 "$run/build.log"; exit 2
+# C01 and C07 explore concurrent requests with scheduling points at statement level in every package
+# of the repository ("wide" instrumentation). If a tree does not build that way (the syntactic pass
+# met something it cannot handle) the check falls back to the narrow instrumentation and says so.
+wide=""
+case "$id" in C01|C07) wide="-wide";; esac
+built=""
+if [ -n "$wide" ]; then
+  mkdir -p "$run/w"
+  if ov=$("$VERIF/bin/overlaygen" -wide -repo "$REPO" -verif "$VERIF" -out "$run/w" -goroot "$goroot") &&
+     (cd "$REPO" && go test -c -vet=off -tags verif -overlay "$ov" -o "$run/verif.test" . ) > "$run/build.log" 2>&1; then
+    built=1; export VERIF_WIDE=1
+  else
+    echo "note: wide instrumentation does not build on this tree; falling back to the narrow one"; tail -5 "$run/build.log"
+  fi
+fi
+if [ -z "$built" ]; then
+  ov=$("$VERIF/bin/overlaygen" -repo "$REPO" -verif "$VERIF" -out "$run" -goroot "$goroot") || { echo "HARNESS-ERROR overlay generation failed"; exit 2; }
+  if ! (cd "$REPO" && go test -c -vet=off -tags verif -overlay "$ov" -o "$run/verif.test" . ) > "$run/build.log" 2>&1; then
+    echo "HARNESS-ERROR build failed"; tail -40 "$run/build.log"; exit 2
+  fi
 fi
 if [ "$REPO" != "/repo" ] && [ -z "${VERIF_OUT_DIR:-}" ]; then
   export VERIF_OUT_DIR=$VERIF/build/scratch-repo-out   # runs against a scratch copy never touch evidence/
   mkdir -p "$VERIF_OUT_DIR"
 fi
-if [ "$mode" = "thorough" ] && { [ "$id" = "C12" ] || [ "$id" = "C20" ]; }; then
+if [ "$mode" = "thorough" ] && { [ "$id" = "C12" ] || [ "$id" = "C20" ] || [ "$id" = "C07" ] || [ "$id" = "C10" ]; }; then
   # labelled supplement (never the deciding step): the same bodies free-running under the race detector
   if (cd "$REPO" && go test -race -c -vet=off -tags verif -overlay "$ov" -o "$run/verif.race.test" . ) > "$run/build-race.log" 2>&1; then
     export VERIF_RACE_BIN=$run/verif.race.test
